@@ -265,8 +265,18 @@ def prove_attach(src_root, ex: Explorer):
         def c_start(it2, f, args, kwargs):
             started.append(args[0])
         it.hooks[f'{TASKS}:Timer.start'] = c_start
+        at_yield = []
+        it.aio.on_yield = lambda it2, label: at_yield.append(
+            (label, any(l[0] == 'set' for l in reqs.log), req.attrs['timer'] is not None, any(x is req.attrs['timer'] for x in started)))
         run(it, it.getattr(mgr, '_attach_request_timer_and_emit'), req)
+        it.aio.on_yield = None
         rt = mgr.attrs['_settings'].attrs['searches'].attrs['send'].attrs['request_timeout']
+        # registering and arming are one step: at a suspension a registered request with a timeout has a running timer (a removal
+        # by the user or a cancellation in between would otherwise leave / start a timer for a superseded request)
+        wants = ctx.valid(z3int(rt) > 0)
+        ctx.prove('C18.attach.armed-with-registration',
+                  all((not registered) or (not wants and not has_timer) or (has_timer and running) for _l, registered, has_timer, running in at_yield),
+                  f'(suspension, registered, timer attached, timer started) = {at_yield}: the request is registered while its timeout is not counting')
         timer = req.attrs['timer']
         has = timer is not None
         ctx.prove('C18.timer.config.iff', z3.BoolVal(has) == (z3int(rt) > 0), 'timer attached iff request_timeout > 0')
